@@ -1,0 +1,49 @@
+//go:build verif
+
+package fontscan
+
+import "github.com/go-text/typesetting/font"
+
+// Verification hooks for property C15 (style matching follows CSS Fonts 5.2).
+// Add-only: re-exports the unexported matching functions on a synthetic font set.
+
+// VerifFontSet is a font set whose footprints only carry an aspect.
+type VerifFontSet struct{ fs fontSet }
+
+// VerifNewFontSet builds a synthetic font set: footprint i has aspect aspects[i].
+func VerifNewFontSet(aspects []font.Aspect) VerifFontSet {
+	fs := make(fontSet, len(aspects))
+	for i, a := range aspects {
+		fs[i].Aspect = a
+	}
+	return VerifFontSet{fs}
+}
+
+// RetainsBestMatches calls fontSet.retainsBestMatches; candidates is mutated in place, as in the library.
+func (v VerifFontSet) RetainsBestMatches(candidates []int, query font.Aspect) []int {
+	return v.fs.retainsBestMatches(candidates, query)
+}
+
+func (v VerifFontSet) MatchStretch(candidates []int, query font.Stretch) font.Stretch {
+	return v.fs.matchStretch(candidates, query)
+}
+
+func (v VerifFontSet) MatchStyle(candidates []int, query font.Style) font.Style {
+	return v.fs.matchStyle(candidates, query)
+}
+
+func (v VerifFontSet) MatchWeight(candidates []int, query font.Weight) font.Weight {
+	return v.fs.matchWeight(candidates, query)
+}
+
+func (v VerifFontSet) FilterByStretch(candidates []int, stretch font.Stretch) []int {
+	return v.fs.filterByStretch(candidates, stretch)
+}
+
+func (v VerifFontSet) FilterByStyle(candidates []int, style font.Style) []int {
+	return v.fs.filterByStyle(candidates, style)
+}
+
+func (v VerifFontSet) FilterByWeight(candidates []int, weight font.Weight) []int {
+	return v.fs.filterByWeight(candidates, weight)
+}
